@@ -681,7 +681,10 @@ func checkC16(c *Case, trace bool) *CaseResult {
 		case mediatedCycleInvolved(wm, at) || mediatedCycleInvolved(wt, -1):
 			v.Class = "decorator-mediated-cycle"
 			res.Stats["diff.c16.decorator-mediated-cycle"]++
-		case cutShortDiffers(a, b, mapping, wm.mon.swallowedOps, wt.mon.swallowedOps):
+		case feederOrderDiffers(h1, t) && cutShortDiffers(a, b, mapping, wm.mon.swallowedOps, wt.mon.swallowedOps):
+			// F23: two feeders of one value group were registered in a different order, and an Invoke that a
+			// failure cut short (or an optional edge rescued) got to different points. Without swapped feeders
+			// (e.g. a pair that differs in DeferAcyclicVerification only) the divergence is something else.
 			v.Class = "after-failed-invoke"
 			res.Stats["diff.c16.after-failed-invoke"]++
 		}
@@ -723,11 +726,6 @@ func cutShortDiffers(a, b *World, mapping []int, swA, swB map[int]bool) bool {
 		if ra.Verdict == VOk && rb.Verdict == VOk && !swA[k] && !swB[mapping[k]] {
 			continue
 		}
-		if ra.Verdict != rb.Verdict {
-			// F23 is about an Invoke that is cut short in BOTH orders, with the same verdict, and has built
-			// different things by then; an Invoke whose verdict itself depends on the order is something else
-			continue
-		}
 		sa, sb := map[int]bool{}, map[int]bool{}
 		for _, e := range ra.Execs {
 			sa[e.Fn] = true
@@ -741,6 +739,51 @@ func cutShortDiffers(a, b *World, mapping []int, swA, swB map[int]bool) bool {
 		for f := range sa {
 			if !sb[f] {
 				return true
+			}
+		}
+	}
+	return false
+}
+
+// feederOrderDiffers: two constructors that feed the same value group (same element type and group name, in any
+// scopes) are registered in one order in h1 and in the other order in h2.
+func feederOrderDiffers(h1, h2 *History) bool {
+	pos := func(h *History) map[int]int {
+		p := map[int]int{}
+		for i, op := range h.Ops {
+			if op.Kind == OpProvide && op.Garbage == 0 {
+				p[op.Fn] = i
+			}
+		}
+		return p
+	}
+	p1, p2 := pos(h1), pos(h2)
+	feeds := map[Key][]int{}
+	for _, f := range h1.Fns {
+		if _, ok := p1[f.ID]; !ok {
+			continue
+		}
+		seen := map[Key]bool{}
+		for _, r := range f.Results {
+			if r.K.Group != "" && !seen[r.K] {
+				seen[r.K] = true
+				feeds[r.K] = append(feeds[r.K], f.ID)
+			}
+		}
+	}
+	for _, fs := range feeds {
+		for i := 0; i < len(fs); i++ {
+			for j := i + 1; j < len(fs); j++ {
+				a, b := fs[i], fs[j]
+				if _, ok := p2[a]; !ok {
+					continue
+				}
+				if _, ok := p2[b]; !ok {
+					continue
+				}
+				if (p1[a] < p1[b]) != (p2[a] < p2[b]) {
+					return true
+				}
 			}
 		}
 	}
